@@ -50,6 +50,19 @@ expressions: names of parameters/locals; the builtin class names bool int float 
              `is` `is not` `==` `!=` between classes, with None, `==`/`!=` between names; `in` / `not in` a literal
              tuple; `<` `<=` `>` `>=` between ints; `and` `or` `not` on bools; `+` `-` `*` `//` `%` and unary `-` on
              ints; `a if c else b`; tuple displays (as a return value or in-operand).
+fingerprint: (GenFingerprint.v) class constants `NAME = <int expr>` with + - * // % << ** (small literal exponent);
+             `self._FP_P` / `Vector._FP_P`; `for x in self._underlying:` with loop-local temporaries; `self._hash_element(x)` /
+             `Vector._hash_element(x)`; in _hash_element exactly the source forms of ELEM_TESTS / ELEM_VALUES on its parameter,
+             the branches `if isinstance(x, set):` / `if isinstance(x, (list, tuple)):` and `hash(repr(x))` are recognised and
+             NOT translated (their value is the parameter el_untranslated); Vector.fingerprint / Table.fingerprint:
+             `self._fp` loads and stores, `self._compute_fingerprint_full()`, the `_ensure_fp_powers()` guard (skipped),
+             `return super().fingerprint()`.
+dispatch   : (GenDispatch.v) each of the 14 arithmetic dunders of Vector / Table must be a plain (self, other) method whose
+             body is `return self.<via>(other, F, '<name>', '<symbol>')` with F = operator.<op> | module-level helper
+             `def f(p, q): return <p|q> OP <q|p>` | `lambda p, q: <p|q> OP <q|p>`, or `return self.__X__(other)` (a
+             delegation row); any other body is the row GOwnBody.
+csv        : (GenCsv.v) in _infer_type: `not s`, `s == ''`, `s.strip()` on the text, `try: return int(s) except ValueError:
+             pass` (also float) as "if int() accepts s then int(s) else go on", `return s`, `return None`.
 fragments  : (GenJoin.v) from Table.inner_join / join / full_join only three TOP-LEVEL statements are translated:
              `if <bool expr over expect>: raise ...` (the first statement that uses `expect`) and the assignments
              `check_right_unique = <bool expr over expect>`, `check_left_unique = ...`, plus the str default of
@@ -73,6 +86,19 @@ ASSUMPTIONS = [
     "warnings.warn(...) statements and docstrings have no effect on the result and are skipped.",
     "Python int is Z; `//` is Z.div and `%` is Z.modulo (both floor); slice.indices is Spec/PySlice.adjust.",
     "Column names are str or None; `==` on them is Model/Naming.ostr_eqb.",
+    "Fingerprint kernels (GenFingerprint.v) are generic in the element type X: what _hash_element's tests see of an "
+    "element is the record GenPrelude.elinfo (el_obs), Python's hash(x) is the parameter el_hash, a nested object's "
+    "int(x.fingerprint()) is el_nested_fp, and the value of the recognised-but-untranslated branches (set, list/tuple, "
+    "hash(repr(x))) is el_untranslated; _is_hashable(x) means `hash(x) does not raise` (its body is checked).",
+    "Vector.fingerprint / Table.fingerprint are translated as functions of (self._fp, fingerprint of the current "
+    "contents); the `_fp_powers` guard is skipped after checking that _ensure_fp_powers assigns nothing else; Table "
+    "must derive from Vector alone and override none of the fingerprint kernels (checked).",
+    "Dispatch (GenDispatch.v): only WHICH function each arithmetic dunder hands to _elementwise_operation / "
+    "_table_elementwise_operation is translated (operator.<op>, a module-level `return a OP b` helper, or a lambda); how "
+    "that function is applied to the elements is Model/Elementwise.elementwise_operation (correspondence check of C05); "
+    "subclasses of Vector that override a dunder (_Date.__add__) are not in the table.",
+    "csv._infer_type (GenCsv.v): `not s` / `s == ''` is txt_empty, s.strip() is txt_strip; int()/float() of a str raise "
+    "nothing but ValueError, int_ok / float_ok say whether they return; the converted value itself is not modelled.",
 ]
 
 
@@ -707,7 +733,7 @@ def block(ctx, env, stmts, ind):
         return (f"{p}if ({ok} {t}) (* L{s.lineno} try {fn}() *)\n{p}then\n{pad(ind + 1)}({con} {t}) (* L{s.body[0].lineno} *)\n"
                 f"{p}else\n" + block(ctx, env, rest, ind + 1))
     if isinstance(s, ast.Try):
-        raise ctx.err(s, "try statement other than `try: return issubclass(..) except TypeError: return False`")
+        raise ctx.err(s, "try statement other than `try: return issubclass(..) except TypeError: return False` or (in a cell-conversion kernel) `try: return int|float(<text>) except ValueError: pass`")
     if isinstance(s, (ast.Assign, ast.AnnAssign)):
         if isinstance(s, ast.AnnAssign):
             if not isinstance(s.target, ast.Name) or s.value is None or not s.simple:
@@ -1515,8 +1541,9 @@ SCRIPTS = [            # (committed proof script, generated modules it needs)
     ("EqJoin.v", ["GenJoin.v"]),
     ("EqFingerprint.v", ["GenFingerprint.v"]),
     ("EqDispatch.v", ["GenDispatch.v"]),
+    ("EqCsv.v", ["GenCsv.v"]),
 ]
-NEEDED_VO = ["Base/GenPrelude", "Props/C04", "Props/C07", "Props/C18", "Props/C11", "Props/C16", "Props/C05"]
+NEEDED_VO = ["Base/GenPrelude", "Props/C04", "Props/C07", "Props/C18", "Props/C11", "Props/C16", "Props/C05", "Props/C19"]
 BUDGET = float(__import__("os").environ.get("SERIF_TRANSLATE_BUDGET", "28"))   # seconds for one run()
 
 HARD_TIMEOUT = 120.0   # seconds for one coqc that MUST run (generated file, first pass over a proof script)
